@@ -208,6 +208,10 @@ class LossFn:
             if self.metric == "Accuracy":
                 return -1.0 if y == p else -0.0
             raise ValueError(self.metric)
+        if fam == "npint16":
+            # a loss reporting narrow NumPy integers (PFI-only worlds: the chain differences of SAGE are not meant for them)
+            v = int(abs(float(y) - float(pred.get("output", 0))) * 997) % 30001
+            return np.int16(v)
         if fam == "bool01":
             # a zero-one loss that returns a Python bool (True = wrong)
             if self.multi:
@@ -295,6 +299,9 @@ class World:
         for j, n in enumerate(self.names):
             if self.values == "unique":
                 v = tag * 8 + j + 1
+            elif self.values == "unique0":
+                # the first feature identifies the row; the others are exactly zero for a quarter of the (row, feature)s
+                v = 0 if (j >= 1 and H(self.seed, "z", tag, j) % 4 == 0) else tag * 8 + j + 1
             else:
                 v = H(self.seed, "x", tag, j) % 3
             x[n] = v
